@@ -21,6 +21,9 @@ stated about what the source says now:
   penCopyKeepsSrc        tickit_pen_copy holds a reference on src from before freeze(dst) to after thaw(dst)
   rootForgetsTickit      tickit_destroy() (src/tickit.c) calls, before it frees the instance, a function of src/window.c
                          that clears root->tickit (a root window the application still references outlives the instance)
+  sigwinchClearsNext     tickit_term_observe_sigwinch() (src/term.c) resets tt->next_sigwinch_observer when it takes the
+                         terminal off the observer list (or before it appends it)
+  setInputFdClearsTermkey  tickit_term_set_input_fd() clears tt->termkey after termkey_destroy(), before get_termkey()
 """
 import re
 
@@ -130,6 +133,19 @@ def run(ctx):
             forgetters.append(m.group(1))
     ifree = tdestroy.rfind("free(t)")
     flags["rootForgetsTickit"] = any(0 <= tdestroy.find(f + "(") < ifree for f in forgetters)
+
+    term = strip(src("src/term.c"))
+    obsw = body_of(term, "void tickit_term_observe_sigwinch") or ""
+    setin = body_of(term, "void tickit_term_set_input_fd") or ""
+    for nm, b in (("tickit_term_observe_sigwinch", obsw), ("tickit_term_set_input_fd", setin)):
+        if not b:
+            info["untranslatable"].append("life:function:" + nm)
+    # the statement `tt->next_sigwinch_observer = NULL;` inside the function (the only other store is the constructor's)
+    flags["sigwinchClearsNext"] = re.search(r"\btt->next_sigwinch_observer\s*=\s*NULL\s*;", obsw) is not None
+    idest = setin.find("termkey_destroy(")
+    iget = setin.find("get_termkey(")
+    mclr = re.search(r"tt->termkey\s*=\s*NULL\s*;", setin)
+    flags["setInputFdClearsTermkey"] = bool(mclr and 0 <= idest < mclr.start() < iget)
 
     body = "namespace Tickit.Gen.Life\n"
     for k, v in flags.items():
